@@ -7,7 +7,7 @@ VARIABLE sched
 KeysSeq == <<"root", "n1">>
 
 PStep(p) == PReadEpoch(p) \/ PReadVersions(p) \/ PBegin(p) \/ PRecheck(p) \/ PNode(p)
-            \/ PDrain(p) \/ PDbWrite(p) \/ PRootAfter(p) \/ PRet(p)
+            \/ PSetAzks(p) \/ PDrain(p) \/ PDbWrite(p) \/ PRootAfter(p) \/ PRet(p)
 RStep(r) == RReadEpoch(r) \/ RNode(r)
 
 MCInit == Init /\ sched = <<>>
